@@ -218,7 +218,8 @@ def e2e(args, sh):
         f.write(E2E_SCRIPT)
         path = f.name
     try:
-        p = subprocess.run(["isopy", path, vlib.REPO], capture_output=True, text=True, timeout=120)
+        from vlib.e2e import runner
+        p = subprocess.run(runner() + [path, vlib.REPO], capture_output=True, text=True, timeout=120)
     finally:
         os.unlink(path)
     out = (p.stdout or "") + (p.stderr or "")[-400:]
